@@ -55,13 +55,13 @@ type c11HEvent struct {
 
 type c11HConn struct {
 	V6     bool          `json:"v6,omitempty"`
-	AS     int           `json:"as"`               // 0 / 1
-	CC     string        `json:"cc"`               // US | "" (unknown) | unk | err (GeoIP lookup fails)
+	AS     int           `json:"as"`                // 0 / 1
+	CC     string        `json:"cc"`                // US | "" (unknown) | unk | err (GeoIP lookup fails)
 	NoRegs bool          `json:"no_regs,omitempty"` // phantom without registrations (read-and-discard state)
-	Flight string        `json:"flight"`           // none | probe | partial | min | prefix | long | wrong-prefix
-	Segs   int           `json:"segments"`         // the bytes arrive in this many reads (long: in 4096-byte reads)
-	End    string        `json:"end"`              // eof | reset | timeout | enobufs
-	During [][]c11HEvent `json:"during,omitempty"` // During[i]: what happens while the handler waits for segment i; the last entry: while it waits for the end
+	Flight string        `json:"flight"`            // none | probe | partial | min | prefix | long | wrong-prefix
+	Segs   int           `json:"segments"`          // the bytes arrive in this many reads (long: in 4096-byte reads)
+	End    string        `json:"end"`               // eof | reset | timeout | enobufs
+	During [][]c11HEvent `json:"during,omitempty"`  // During[i]: what happens while the handler waits for segment i; the last entry: while it waits for the end
 }
 
 type c11HistCase struct {
@@ -116,7 +116,7 @@ type c11HistRun struct {
 	open     int // connections currently inside their handler
 	conns    int
 	detached []chan any
-	detPanic any    // first panic of a nested event or of a detached handler (with its own stack)
+	detPanic any // first panic of a nested event or of a detached handler (with its own stack)
 	detStack string
 }
 
